@@ -168,6 +168,7 @@ loop:
 	for {
 		event, ok := el.eventQ.pop()
 		if !ok {
+			verifYield("run-idle")
 			select {
 			case <-el.eventQ.ready():
 				continue loop
